@@ -17,7 +17,9 @@ A caller "holds" entry `e` from the region that hands it `e`'s value to the firs
 `Delete` (`holders`).
 -/
 import CaddyModel.C04.Reach
-import CaddyModel.C04.Spec
+import CaddyModel.C04.Refine
+import CaddyModel.C04.Values
+import CaddyModel.C04.NoPanic
 import CaddyModel.C04.Witness
 
 namespace CaddyModel.C04
@@ -157,6 +159,19 @@ theorem failed_acquisition_returns_no_value {s : G} {e : Nat} (h : Reachable s) 
     (herr : (lnReadRet s e).2 = true) : (lnReadRet s e).1 = none :=
   (ent_failed_facts ((inv_reachable h).ent e he) herr).2.1
 
+/-- **values are never shared between entries**, so the entry-level statements above are
+    statements about values: if a caller holds an entry with value `v`, no entry holding `v` has
+    been destructed or is about to be — `v`'s destructor has not run. -/
+theorem held_value_not_destructed {s : G} (h : Reachable s) {e e' v : Nat} (he : e < s.next) (he' : e' < s.next)
+    (hh : 0 < (s.ent e).holders) (hv : (s.ent e).value = some v) (hv' : (s.ent e').value = some v) :
+    e' = e ∧ (s.ent e').destructed = 0 ∧ (s.ent e').del3 = 0 := by
+  obtain ⟨ls, hc, hr⟩ := h
+  have hval := valInv_run ls G.init s valInv_init hc hr
+  have := hval.inj e' e v he' he hv' hv
+  subst this
+  obtain ⟨hd, _, h3, _⟩ := not_destructed_before_own_release ⟨ls, hc, hr⟩ he hh
+  exact ⟨rfl, hd, h3⟩
+
 /-! ### failed constructor -/
 
 /-- **a failed constructor leaves the key absent.** The region that removes the placeholder
@@ -237,6 +252,15 @@ theorem delete_never_panics {s : G} (h : Reachable s) {k e : Nat} (he : e < s.ne
   refine ⟨?_, by omega⟩
   rw [← hk]; exact pool_of_inPool hm
 
+/-- **the panic of `Delete` is unreachable — for every client.** After ANY schedule (no exclusion:
+    also callers that delete what they do not hold, also the `else` branch of LoadOrStore) the
+    entry `Delete(k)` finds has refs ≥ 1, so the thread-level model never produces the event `Dp`.
+    ("Deleting too many times will panic" is not what the code does: it returns (false, nil).) -/
+theorem delete_panic_unreachable (ls : List Label) (s : G) (hr : runLabels G.init ls = some s)
+    (k e : Nat) (hp : s.pool k = some e) : ¬ ((s.ent e).refs - 1 < 0) := by
+  have := (mapOk_run ls G.init s mapOk_init hr k e hp).2.2
+  omega
+
 /-- `References`, second region (the atomic load, after the pool lock was released): if the entry
     is still in the map the count is ≥ 1 and is the count of the key.  (Without that hypothesis the
     clause fails on the unchanged code: `Witness.references_full_fails`.) -/
@@ -262,9 +286,51 @@ example : (runLabels G.init (exRun.take 4)).map (fun s => ((s.ent 0).holders, (s
 -- a failing constructor with a waiter: the waiter reads the error, the key is absent
 example : (runLabels G.init [.lnLookup 0, .lnLookup 0, .ctorErr 0, .lnFailDel 0, .lnRead 0]).map
     (fun s => (s.pool 0, (s.ent 0).holders, (s.ent 0).refs, (s.ent 0).deadRefs)) = some (none, 0, 2, 2) := by decide
+-- over-deleting: the second Delete finds nothing (hypothesis of `delete_panic_unreachable` with a contract-breaking client)
+example : (runLabels G.init [.lsLookup 0, .del1 0 none, .del1 0 none]).map (fun s => (s.pool 0, (s.ent 0).refs)) = some (none, 0) := by decide
 -- a released entry and a new live entry of the same key
 example : (runLabels G.init [.lsLookup 0, .del1 0 (some 0), .lsLookup 0]).map
     (fun s => (s.pool 0, (s.ent 0).del2, (s.ent 1).holders)) = some (some 1, 1, 1) := by decide
+
+/-! ### linearizability: refinement of the atomic pool -/
+
+/-- a finite execution of the atomic pool of `Spec.lean` -/
+inductive SpecRun : Abs → List SpecLabel → Abs → Prop where
+  | nil (a) : SpecRun a [] a
+  | cons {a b c l ls} : SpecStep a l b → SpecRun b ls c → SpecRun a (l :: ls) c
+
+/-- **refinement (one region).** In every reachable state every non-excluded lock region is
+    exactly one atomic step of the abstract pool — `begin`/`join`/`store` at the first region of
+    LoadOrNew/LoadOrStore, `commit` when the constructor's value is published, `abort` when the
+    failed placeholder is removed, `release` at the first region of Delete — or invisible. -/
+theorem refines_spec {s s' : G} {l : Label} (h : Reachable s) (hx : excluded s l = false)
+    (hs : gstep s l = some s') : SpecStep (abs s) (specLabel s l) (abs s') :=
+  refines_spec_inv (inv_reachable h) hx hs
+
+/-- **refinement (whole schedules).** Every schedule of lock regions, of any length and any number
+    of goroutines, is — seen through the abstraction map — an execution of the atomic pool: each
+    operation takes effect at one instant between its call and its return. -/
+theorem refines_spec_run : ∀ (ls : List Label) (s s' : G), Reachable s → cleanRun s ls = true →
+    runLabels s ls = some s' → ∃ sl, sl.length = ls.length ∧ SpecRun (abs s) sl (abs s')
+  | [], s, s', _, _, hr => by
+    simp only [runLabels] at hr; cases hr
+    exact ⟨[], rfl, SpecRun.nil _⟩
+  | l :: ls, s, s', h, hc, hr => by
+    simp only [runLabels] at hr
+    simp only [cleanRun, Bool.and_eq_true, Bool.not_eq_true'] at hc
+    cases hg : gstep s l with
+    | none => rw [hg] at hr; cases hr
+    | some s1 =>
+      rw [hg] at hr
+      have hc2 := hc.2
+      rw [hg] at hc2
+      obtain ⟨sl, hl, hrun⟩ := refines_spec_run ls s1 s' (reachable_step h hc.1 hg) hc2 hr
+      exact ⟨specLabel s l :: sl, by simp [hl], SpecRun.cons (refines_spec h hc.1 hg) hrun⟩
+
+-- non-vacuity: two callers share value 1 of key 0 (`live 1 2`); after both released it the key is absent
+example : (runLabels G.init (exRun.take 4)).map (fun s => abs s 0) = some (.live 1 2) := by decide
+example : (runLabels G.init exRun).map (fun s => abs s 0) = some .absent := by decide
+example : (runLabels G.init [.lnLookup 0, .lsLookup 0]).map (fun s => (abs s 0, specLabel s (.ctorErr 0))) = some (.pending 2, .tau) := by decide
 
 /-! ### the executable thread-level model stays inside the proved state space -/
 
